@@ -20,12 +20,19 @@ MINIMUM = {'R09.1': 6, 'R09.2': 4, 'R09.3': 3, 'R09.4': 3, 'R09.5': 3, 'R09.6': 
 SUFFIX = '.trashinfo'
 
 
+
+
+
+
 # rules of sibling properties that are necessary conditions of this one too
 # (evaluated by the sibling module on the same graphs, reported under this property)
-ALSO = {'C03': {'R03.1': 'what list prints is the decoded Path exactly as written'},
+ALSO = {'C02': {'R02.4': 'the relative Path is relative to the volume the readers join'},
+ 'C03': {'R03.1': 'what list prints is the decoded Path exactly as written'},
  'C04': {'R04.6': 'an entry must not lose its .trashinfo to a concurrent trash-put'},
  'C10': {'R10.1': 'after trash-empty N exactly the entries older than N days are gone',
-         'R10.2': 'after trash-empty N exactly the entries older than N days are gone'},
+         'R10.2': 'after trash-empty N exactly the entries older than N days are gone',
+         'R10.4': 'a payload is purged as an orphan only when its .trashinfo is absent at that '
+                  'moment'},
  'C20': {'R20.2': 'list/rm/restore show the same location for an entry'}}
 
 def suffix_guarded(b, node, entry_term):
@@ -154,7 +161,7 @@ def check(ctx):
         for w, o, t in outs:
             opened = set()
             for y in walk(t):
-                if isinstance(y, Call) and y.fn == 'open' and y.args:
+                if isinstance(y, Call) and y.fn in ('open', 'io.open', 'codecs.open') and y.args:
                     opened |= alt_ids(y.args[0])
             if opened == info_ids and g.dominates(e.id, o.id):
                 mine.append((o, t))
